@@ -293,6 +293,17 @@ class World:
         elif a == 'changed-then-gc':
             reg.changed(None)
             gc.collect()
+        elif a == 'rebase-while-generation-fails':
+            # the registry gets other bases; the invalidation that ends the
+            # assignment fails once while it reads a base's _generation
+            self.generation_fails = 1
+            try:
+                reg.__bases__ = (self.base2,)
+            finally:
+                failed = not self.generation_fails
+                self.generation_fails = 0
+            if not failed:
+                raise Injected('injected')
         elif a == 'register-while-generation-fails':
             # the mutation succeeds as far as the registry's contents go; the
             # invalidation that ends it fails once while it reads a base's
@@ -315,6 +326,8 @@ class World:
             return
         if a in ('register-then-raise', 'register-while-generation-fails'):
             a = 'register-better'
+        if a == 'rebase-while-generation-fails':
+            a = 'rebase-registry'
         if a == 'reenter-then-register-in-base':
             a = 'register-in-base'
         self.do_action(a)
@@ -384,7 +397,7 @@ ACTIONS = ['nop', 'register-better', 'register-other-name', 'unregister-winner',
            'unsubscribe', 'register-in-base', 'rebase-registry', 'rebase-interface', 'changed',
            'lookup.changed', 'reenter-same', 'reenter-other', 'gc', 'raise',
            'register-then-raise', 'changed-then-gc', 'reenter-then-register-in-base',
-           'register-while-generation-fails']
+           'register-while-generation-fails', 'rebase-while-generation-fails']
 SITES = ['required-iter', 'providedBy', 'conform', 'factory', 'generation', 'value-destructor',
          'key-destructor',
          # the value dies inside the changed() of another kind of mutation (verifying
@@ -418,7 +431,7 @@ def scenario_destructor(case, light=False):
     the middle of that and performs the action (a re-entrant lookup, a
     mutation, changed(), a collection ...)."""
     flavour, entry, site, action, warm = case
-    if entry not in DESTRUCTOR_ENTRIES or action in ('raise', 'register-then-raise', 'register-while-generation-fails'):
+    if entry not in DESTRUCTOR_ENTRIES or action in ('raise', 'register-then-raise', 'register-while-generation-fails', 'rebase-while-generation-fails'):
         return None, False
     trigger = site.partition('/')[2]
     if trigger and flavour != 'verifying':
@@ -512,7 +525,7 @@ def scenario(case, light=False):
     lazy = 'twin' if site == 'key-destructor' else site == 'required-iter'
     if lazy and entry not in LAZY_OK:
         return None, False
-    if lazy == 'twin' and action in ('raise', 'register-then-raise', 'register-while-generation-fails'):
+    if lazy == 'twin' and action in ('raise', 'register-then-raise', 'register-while-generation-fails', 'rebase-while-generation-fails'):
         return None, False          # an exception in a destructor goes nowhere
     if site == 'generation' and flavour != 'verifying':
         return None, False
@@ -553,7 +566,7 @@ def scenario(case, light=False):
         return None, False
     if light:
         return None, True
-    expect_raise = action in ('raise', 'register-then-raise', 'register-while-generation-fails') and site != 'factory-swallow'
+    expect_raise = action in ('raise', 'register-then-raise', 'register-while-generation-fails', 'rebase-while-generation-fails') and site != 'factory-swallow'
     if raised and not expect_raise:
         return ('unexpected-exception', raised), True
     if expect_raise and not raised:
@@ -581,6 +594,18 @@ def scenario(case, light=False):
         b = norm(t.call(e, lz))
         if a != b:
             return ('stale-answer-survives:' + e, a, b), True
+    # ... and the registry still hears about the registries it derives from
+    # now: a later registration in each of them reaches every entry point
+    t = World(flavour, audit=False)
+    t.apply_mutation_only(action)
+    for x in (w, t):
+        x.base.register([x.I1], x.P, 'b1', x.fNEW)
+        x.base2.register([x.I1], x.P, 'b2', x.fNEW)
+    for e in ENTRIES:
+        lz = e in LAZY_OK and lazy
+        a, b = norm(w.call(e, lz)), norm(t.call(e, lz))
+        if a != b:
+            return ('stale-after-a-later-registration-in-a-base:' + e, a, b), True
     # no leak: once the lookup has ended and the caches are cleared, nobody
     # but the harness (and the pinned dict one level up) refers to a container
     # the interrupted frame was holding
@@ -1072,7 +1097,7 @@ def run(ctx):
     MUT_ACTIONS = ('register-better', 'unregister-winner', 'subscribe', 'unsubscribe',
                    'register-in-base', 'rebase-registry', 'rebase-interface', 'changed',
                    'lookup.changed', 'register-then-raise', 'changed-then-gc', 'reenter-other',
-                   'reenter-same', 'gc', 'reenter-then-register-in-base', 'register-while-generation-fails')
+                   'reenter-same', 'gc', 'reenter-then-register-in-base', 'register-while-generation-fails', 'rebase-while-generation-fails')
     if quick:
         mc = [c for c in cases if c[3] in MUT_ACTIONS and
               (c[2].startswith('uncached') or c[2] in ('generation', 'required-iter', 'key-destructor') or c[2].startswith('value-destructor'))]
